@@ -121,15 +121,15 @@ let parse_sig line : program =
     | "gq" -> let g = ni () in OGQuery g
     | "gmk" -> let s = ni () in let g = ni () in OGMakeSlot (s, g)
     | "cempty" -> let c = ni () in OCEmpty c
-    | "ccopy" -> let a = ni () in let b = ni () in OCCopy (a, b)
-    | "casg" -> let a = ni () in let b = ni () in OCAssign (a, b)
+    | "ccopy" | "cmove" -> let a = ni () in let b = ni () in OCCopy (a, b)          (* sigc::connection has no move operations: moving copies *)
+    | "casg" | "cmasg" -> let a = ni () in let b = ni () in OCAssign (a, b)
     | "cdisc" -> let c = ni () in OCDisc c
     | "cblock" -> let c = ni () in let b = nb () in OCBlock (c, b)
     | "cdel" -> let c = ni () in OCDel c
     | "cq" -> let c = ni () in OCQuery c
-    | "knew" -> let k = ni () in let c = ni () in OKNew (k, c)
+    | "knew" | "knewm" -> let k = ni () in let c = ni () in OKNew (k, c)
     | "kempty" -> let k = ni () in OKEmpty k
-    | "kasg" -> let k = ni () in let c = ni () in OKAssign (k, c)
+    | "kasg" | "kasgm" -> let k = ni () in let c = ni () in OKAssign (k, c)
     | "kmove" -> let a = ni () in let b = ni () in OKMove (a, b)
     | "kmasg" -> let a = ni () in let b = ni () in OKMoveAssign (a, b)
     | "kswap" -> let a = ni () in let b = ni () in OKSwap (a, b)
